@@ -31,6 +31,8 @@ ARCH = {
     'rsa4096': dict(kex=['curve25519-sha256'], key=['ssh-rsa'], enc=['aes128-ctr'], mac=['hmac-sha2-256'], rsa_bits=4096),
     'gex1024': dict(kex=['curve25519-sha256', G256], key=['ssh-ed25519'], enc=['aes128-ctr'], mac=['hmac-sha2-256'], gex_bits=1024),
     'gex4096': dict(kex=['curve25519-sha256', G256], key=['ssh-ed25519'], enc=['aes128-ctr'], mac=['hmac-sha2-256'], gex_bits=4096),
+    # advertises group exchange, but none of its group-exchange probes is answered: it has no modulus size of its own (so a size shown for it is another target's)
+    'gexnone': dict(kex=['curve25519-sha256', G256], key=['ssh-ed25519'], enc=['aes128-ctr'], mac=['hmac-sha2-256']),
 }
 
 
@@ -434,7 +436,7 @@ def tasks(tier):
         for second in ('terrapin', 'clean', 'plain'):
             for json in (False, True):
                 T.append(WorkerStep(first, second, json))
-    for first, second in [('good', 'good'), ('good', 'plain'), ('rsa1024', 'rsa4096'), ('rsa4096', 'rsa1024'), ('gex1024', 'gex4096'), ('gex4096', 'gex1024'), ('rsa1024', 'gex1024'), ('gex1024', 'plain')]:
+    for first, second in [('good', 'good'), ('good', 'plain'), ('rsa1024', 'rsa4096'), ('rsa4096', 'rsa1024'), ('gex1024', 'gex4096'), ('gex4096', 'gex1024'), ('rsa1024', 'gex1024'), ('gex1024', 'plain'), ('gex1024', 'gexnone'), ('gex4096', 'gexnone')]:
         for json in (False, True):
             T.append(WorkerStep(first, second, json))
     if tier != 'quick':
